@@ -1879,7 +1879,11 @@ def run(pids, quick=False, seed=0, verbose=True, snippets=False):
             else:                               # a method that changes nothing returns its value only
                 want = want[:1]
                 got_c = [list(('exc', val[1]) if val[0] == 0 else ('ok', dec(rtype, val, 1)[0]))]
-            if spec.get('key_locals') and list(got_c[0]) == ['exc', 7]:
+            if spec.get('key_locals') is not None:      # round 3e: yielded pairs: tuples and lists are one notation
+                def _tl(v):
+                    return [_tl(x) for x in v] if isinstance(v, (list, tuple)) else v
+                want, got_c = _tl(want), _tl(got_c)
+            if spec.get('key_locals') is not None and list(got_c[0]) == ['exc', 7]:
                 # round 3e: the checked unboxing of a key failed (`PyExc.Other`): the translation says "not modelled" (a
                 # state outside the class's reach: `root[PREV]` is not a cell although the dict is not empty); counted
                 r['unmodelled'] = r.get('unmodelled', 0) + 1
